@@ -438,7 +438,7 @@ const c13Rule = "call sequences over AddWarrior(pool of 6 tiny warriors), SpawnW
 
 func TestC13_Rapid(t *testing.T) {
 	hx.Run(t, hx.Prop[apiCase]{
-		ID: "C13", Sub: "sequences", Rule: "[sampled, length 1..60] " + c13Rule, Checks: hx.Scale(15000, 1500000),
+		ID: "C13", Sub: "sequences", Rule: "[sampled, length 1..60] " + c13Rule, Checks: hx.Scale(15000, 6000000),
 		Gen: genAPICase, Judge: judgeAPI,
 	})
 }
@@ -692,7 +692,7 @@ func judgeResetCase(c resetCase, rec *hx.Rec) string {
 
 func TestC13_ResetFresh(t *testing.T) {
 	hx.Run(t, hx.Prop[resetCase]{
-		ID: "C13", Sub: "resetfresh", Checks: hx.Scale(10000, 800000),
+		ID: "C13", Sub: "resetfresh", Checks: hx.Scale(10000, 4000000),
 		Rule: "metamorphic (two gmars simulators, no model): random call prefix, Reset, spawn list S, suffix T on simulator A; a fresh simulator B receives the same AddWarrior calls, S and T; every return value and the full observable state after every call of S and T must be equal. Non-trivial: the prefix executed at least one cycle and added a warrior; distinct by case hash.",
 		Gen:  genResetCase, Judge: judgeResetCase,
 	})
